@@ -4,8 +4,45 @@
 
 use crate::ctx::{Ctx, Stream::F};
 
-pub const FAULT_KINDS: [&str; 9] =
-    ["truncate", "bit-flip", "byte-burst", "zero-block", "stale-block", "misdirected-block", "duplicated-block", "splice", "digit-edit"];
+pub const FAULT_KINDS: [&str; 10] =
+    ["truncate", "bit-flip", "byte-burst", "zero-block", "stale-block", "misdirected-block", "duplicated-block", "splice", "digit-edit", "ref-retarget"];
+
+/// Positions of `N G R` reference tokens: (start of N, end of N, preceded by /Length).
+fn find_refs(img: &[u8]) -> Vec<(usize, usize, bool)> {
+    let mut out = Vec::new();
+    let mut i = 0;
+    while i < img.len() {
+        if img[i].is_ascii_digit() && (i == 0 || !img[i - 1].is_ascii_digit()) {
+            let s = i;
+            while i < img.len() && img[i].is_ascii_digit() {
+                i += 1;
+            }
+            let e = i;
+            let mut j = e;
+            let ws = |c: u8| c == b' ' || c == b'\n' || c == b'\r' || c == b'\t';
+            while j < img.len() && ws(img[j]) {
+                j += 1;
+            }
+            let g0 = j;
+            while j < img.len() && img[j].is_ascii_digit() {
+                j += 1;
+            }
+            if j > g0 && j > e {
+                let mut k = j;
+                while k < img.len() && ws(img[k]) {
+                    k += 1;
+                }
+                if k > j && k < img.len() && img[k] == b'R' && (k + 1 == img.len() || !img[k + 1].is_ascii_alphanumeric()) {
+                    let lead = &img[s.saturating_sub(12)..s];
+                    out.push((s, e, lead.windows(7).any(|w| w == b"/Length")));
+                }
+            }
+        } else {
+            i += 1;
+        }
+    }
+    out
+}
 
 fn block_size(ctx: &Ctx) -> usize {
     [16usize, 64, 512, 4096][ctx.draw(F, 4, "block-size") as usize]
@@ -57,6 +94,33 @@ pub fn apply_fault(ctx: &Ctx, img: &mut Vec<u8>, older: Option<&[u8]>, hot: &[(u
             let p = position(ctx, len, hot);
             if let Some(q) = (p..len.min(p + 64)).find(|&i| img[i].is_ascii_digit()) {
                 img[q] = b'0' + ctx.draw(F, 10, "digit") as u8;
+            }
+        }
+        "ref-retarget" => {
+            // a corrupted digit run inside a reference that happens to name another object of the
+            // file (reference cycles, Length pointing at a stream, Kids pointing upwards ...)
+            let refs = find_refs(img);
+            if !refs.is_empty() {
+                let lens: Vec<&(usize, usize, bool)> = refs.iter().filter(|r| r.2).collect();
+                let (s, e, _) = if !lens.is_empty() && ctx.chance(F, 1, 2, "retarget-length") {
+                    *lens[ctx.draw(F, lens.len() as u64, "retarget-which") as usize]
+                } else {
+                    refs[ctx.draw(F, refs.len() as u64, "retarget-which") as usize]
+                };
+                // new target: the number of some other reference or a small number
+                let (ts, te, _) = refs[ctx.draw(F, refs.len() as u64, "retarget-to") as usize];
+                let mut digits: Vec<u8> = if ctx.chance(F, 1, 4, "retarget-small") {
+                    (1 + ctx.draw(F, 30, "retarget-n")).to_string().into_bytes()
+                } else {
+                    img[ts..te].to_vec()
+                };
+                let width = e - s;
+                if digits.len() <= width {
+                    while digits.len() < width {
+                        digits.insert(0, b'0');
+                    }
+                    img[s..e].copy_from_slice(&digits);
+                }
             }
         }
         "zero-block" => {
